@@ -42,6 +42,29 @@ def sig_exc(stage, e):
     return "%s:%s:%s" % (stage, type(e).__name__, fn)
 
 
+def delta_features(old_spec, new_spec):
+    """Abstract features of a tree change that the fast-import stream has to express specially."""
+    out = set()
+    old = {e.fid: (p, e.kind) for p, e in old_spec.items()}
+    for p, e in new_spec.items():
+        if e.fid in old:
+            op, ok = old[e.fid]
+            if ok != e.kind:
+                out.add("kind-change")
+            elif e.kind == "directory" and op != p:
+                out.add("dir-rename")
+    # a path that changes kind although the file ids differ (file 'dd' replaced by directory 'dd')
+    oldp = {p: e.kind for p, e in old_spec.items()}
+    for p, e in new_spec.items():
+        if p in oldp and oldp[p] != e.kind:
+            out.add("kind-change")
+    return out
+
+
+def qual(features):
+    return "".join(":" + f for f in sorted(features))
+
+
 def check_history(dag, assign, acc, base_dir, modes=("plain", "rich"), obs=None):
     from breezy.branch import Branch
     from breezy.plugins.fastimport import exporter
@@ -67,6 +90,9 @@ def check_history(dag, assign, acc, base_dir, modes=("plain", "rich"), obs=None)
             srevs = {rid: srepo.get_revision(rid) for rid in ids}
             strees = {rid: _hist.tree_listing(srepo.revision_tree(rid), drop_empty_dirs=True) for rid in ids}
         lefthand = [ids[i] for i in gen.lefthand(dag, n - 1)]
+        feats = [delta_features(_hist.STATES[assign[dag[i][0]]], _hist.STATES[assign[i]]) if dag[i] else set()
+                 for i in range(n)]
+        all_feats = set().union(*feats)
         for mode in modes:
             d = dict(hist, mode=mode)
             sfx = ":" + mode
@@ -88,7 +114,7 @@ def check_history(dag, assign, acc, base_dir, modes=("plain", "rich"), obs=None)
                     proc = generic_processor.GenericProcessor(bzrdir=control, params={b"mode": "default"}, verbose=False)
                     proc.process(parser.ImportParser(BytesIO(stream)).iter_commands)
                 except Exception as e:  # noqa
-                    acc.violation(sig_exc("import", e) + sfx, dict(d, error=str(e)[:300]))
+                    acc.violation(sig_exc("import", e) + sfx + qual(all_feats), dict(d, error=str(e)[:300]))
                     continue
                 mark_of = dict(ex.revid_to_mark)           # source revid -> mark
                 marks = dict(proc.cache_mgr.marks)           # mark -> new revid
@@ -147,7 +173,8 @@ def check_history(dag, assign, acc, base_dir, modes=("plain", "rich"), obs=None)
                             w, g = strees[rid].get(p), got.get(p)
                             what = "extra-path" if w is None else "missing-path" if g is None else \
                                 "kind" if w[0] != g[0] else "exec-bit" if w[0] == "file" and w[1] == g[1] else "content"
-                            acc.violation("tree:%s%s" % (what, sfx), dict(d, rev=i, path=p, want=w, got=g))
+                            acc.violation("tree:%s%s%s" % (what, sfx, qual(feats[i])), dict(d, rev=i, path=p, want=w, got=g))
+                            tainted = True      # descendants are built on this tree
                         sr, r = srevs[rid], nrepo.get_revision(nr)
                         for field, a, b in (("message", sr.message, r.message), ("committer", sr.committer, r.committer),
                                             ("timestamp", float(sr.timestamp), float(r.timestamp)),
@@ -187,6 +214,8 @@ def run(ctx):
     else:
         items = _hist.histories(3, 6)
         bound = "connected DAGs <= 3 revisions x 6 tree states"
+    stride = int(os.environ.get("VERIF_DEV_STRIDE", "1") or 1)     # development aid only: every k-th history
+    items = items[::stride]
     base = boot.scratch("c44a")
     for h in [h for h in items if len(h[0]) == 3][:3]:
         o1, o2 = [], []
@@ -218,5 +247,6 @@ def run(ctx):
         "counters": acc.counters,
         "outcomes": sorted(str(o) for o in acc.outcomes),
         "samples": acc.samples[:3],
-        "exhaustive": True,
+        "exhaustive": stride == 1,
+        **({"capped": "VERIF_DEV_STRIDE=%d: every %d-th history only" % (stride, stride)} if stride > 1 else {}),
     }
